@@ -378,6 +378,21 @@ def m_fold(ex, site, a):
     return acc
 
 
+@model(rx(r'^<.* as Iterator>::try_for_each$'))
+def m_try_for_each(ex, site, a):
+    it = iter_of_arg(ex, a[0]); f = a[1]
+    rt = site_generic(site, 1) if len(site.generics) > 1 else 'Result'
+    s_ = short_type(rt)
+    while True:
+        v = it.next(ex)
+        if v is None: break
+        r = ex.call_value(f, [v])
+        if r.ty == 'Result' and r.variant == 1: return r
+        if r.ty == 'Option' and r.variant == 0: return r
+        if r.ty == 'ControlFlow' and r.variant == 1: return r
+    return ok(unit()) if s_ == 'Result' else (some(unit()) if s_ == 'Option' else Agg('ControlFlow', 0, [unit()]))
+
+
 @model(rx(r'^<.* as Iterator>::reduce$'))
 def m_reduce(ex, site, a):
     it = to_iter(ex, a[0]); acc = it.next(ex)
